@@ -51,7 +51,9 @@ EX == "e2"
 FaultReads(f) ==
   CASE f = "read_node" -> <<<<"node", X>>>> [] f = "read_adj" -> <<<<"adj", X>>>>
     [] f = "read_natt" -> <<<<"natt", X>>>> [] f = "read_eatt" -> <<<<"eatt", EX>>>>
-    [] f = "read_edge" -> <<<<"edge", EX>>>> [] OTHER -> <<>>
+    [] f = "read_edge" -> <<<<"edge", EX>>>>
+    [] f = "read_natt_n2" -> <<<<"natt", "n2">>>>      \* same local id as the portal owner of the descent chain
+    [] OTHER -> <<>>
 OtherWarp(w) == CHOOSE v \in Warps : v # w
 FaultOps(f, w, scope) ==
   CASE f = "write_node" -> <<OpUpsertNode(w, X, "tA")>>
@@ -64,6 +66,7 @@ FaultOps(f, w, scope) ==
     [] f = "instance_upsert" -> <<OpUpsertInst(w, scope, None)>>
     [] f = "instance_delete" -> <<OpDeleteInst(w)>>
     [] f = "open_portal" -> <<OpOpenPortal(NAtt(w, scope), OtherWarp(w), "n0", <<"empty", "tA">>)>>
+    [] f = "open_portal_existing" -> <<OpOpenPortal(NAtt(w, scope), OtherWarp(w), "n0", <<"require">>)>>
     [] OTHER -> <<>>
 
 ReadViolation(fp, w, acc) ==
